@@ -102,7 +102,7 @@ def _gen_reading(rng, ref, key, x, P, k, p, tags):
             dvec = np.array([[rng.gauss(0, 1)] for _ in rn])
             if np.linalg.norm(dvec) > 0:
                 q = float((dvec.T @ np.linalg.inv(S) @ dvec).item())
-                delta = rng.choice([-1, 1]) * rng.choice([1e-7, 1e-5, 1e-3, 0.05])
+                delta = rng.choice([-1, 1]) * rng.choice([4e-9, 1e-8, 1e-7, 1e-5, 1e-3, 0.05])
                 alpha = math.sqrt(thr * (1 + delta) / q)
                 for i, r in enumerate(rn):
                     z[r] = float(hx[i, 0] + alpha * dvec[i, 0])
@@ -341,6 +341,8 @@ class Harness:
             exc = e
         except Exception as e:  # noqa: BLE001
             res.add("C04", "raises", f"C04:py:raises:{type(e).__name__}", i, "prediction returns", f"{type(e).__name__}: {str(e)[:200]}")
+            if _covariance_refusal(e) and all(reference.strictly_valid(M) for M in (P_in, parts["GPG"], parts["VMV"], Pr)):
+                res.add("C09", "refused_valid", f"C09:py:refused_valid:predict:{type(e).__name__}", i, "a symmetric PSD (possibly singular) covariance is propagated", f"{type(e).__name__}: {str(e)[:160]}")
             res.truncated = "sut_exception"
             return None
         if exc is not None:
@@ -425,6 +427,8 @@ class Harness:
         except Exception as e:  # noqa: BLE001
             prop = "C06" if (self.k is not None and "ambiguous" in str(e)) else "C05"
             res.add(prop, "raises", f"{prop}:py:raises:{type(e).__name__}:m{'>=2' if m > 1 else '=1'}", i, "sensor update returns", f"{type(e).__name__}: {str(e)[:200]}")
+            if _covariance_refusal(e) and reference.strictly_valid(P_in) and reference.strictly_valid(u["S"]) and reference.min_eig(u["S"]) > 1e-9 * reference.cov_scale(u["S"]):
+                res.add("C09", "refused_valid", f"C09:py:refused_valid:update:{type(e).__name__}", i, "a symmetric PSD (possibly singular) covariance is accepted by the update", f"{type(e).__name__}: {str(e)[:160]}")
             res.truncated = "sut_exception"
             return None
         if exc is not None:
@@ -445,17 +449,19 @@ class Harness:
             res.truncated = "sut_refused"
             return None
         so, co = out
-        # ---- recorded innovation and S (C05), other sensors' records untouched
+        # ---- recorded innovation and S: C05 for an applied reading, C06 for a discarded one ("its innovation is still recorded")
+        unchanged0 = so.data.tobytes() == st.data.tobytes() and co.data.tobytes() == cov.data.tobytes()
+        rp = "C06" if (unchanged0 and self.k is not None) else "C05"
         rec_inn, rec_S = ekf.innovations.get(key), ekf.sensor_prediction_uncertainty.get(key)
         if rec_inn is None or rec_S is None:
-            res.add("C05", "record_missing", "C05:py:record_missing", i, "innovation and S recorded under the sensor key", "missing")
+            res.add(rp, "record_missing", f"{rp}:py:record_missing", i, "innovation and S recorded under the sensor key", "missing")
         else:
             e1, e2 = rel(rec_inn, u["inn"]), rel(rec_S, u["S"])
             self.worst["inn"], self.worst["S"] = max(self.worst["inn"], e1), max(self.worst["S"], e2)
             if e1 > TOL_X:
-                res.add("C05", "innovation_record", "C05:py:innovation_record", i, f"innovations[{key}] = z - h(x) = {u['inn'].T.tolist()}", f"{np.asarray(rec_inn).T.tolist()}")
+                res.add(rp, "innovation_record", f"{rp}:py:innovation_record" + (":discarded_reading" if rp == "C06" else ""), i, f"innovations[{key}] = z - h(x) = {u['inn'].T.tolist()}" + (" also for a discarded reading" if rp == "C06" else ""), f"{np.asarray(rec_inn).T.tolist()}")
             if e2 > TOL_X:
-                res.add("C05", "S_record", f"C05:py:S_record:m{'>=2' if m > 1 else '=1'}", i, f"S = H P H^T + Q = {u['S'].tolist()}", f"{np.asarray(rec_S).tolist()}")
+                res.add(rp, "S_record", f"{rp}:py:S_record:m{'>=2' if m > 1 else '=1'}" + (":discarded_reading" if rp == "C06" else ""), i, f"S = H P H^T + Q = {u['S'].tolist()}", f"{np.asarray(rec_S).tolist()}")
         for k_, (bi, bs) in before.items():
             if ekf.innovations[k_].tobytes() != bi or ekf.sensor_prediction_uncertainty[k_].tobytes() != bs:
                 res.add("C05", "record_isolation", "C05:py:record_isolation", i, f"records of sensor {k_} untouched by an update of {key}", "changed")
@@ -490,11 +496,11 @@ class Harness:
                 res.stats["reject"] += 1
         if unchanged and observable:
             res.stats["probe:discarded"] += 1
+        if self.k is not None and want in ("discard", "either"):
+            # a (rightly, or within the band) discarded reading: nothing to compare; a wrong keep is already reported under C06
             return so, co
-        if want == "discard" and self.k is not None:
-            # wrong keep already reported; nothing more to compare against
-            if not unchanged:
-                return so, co
+        # the reading must be applied (filtering disabled, or NIS clearly below the threshold): if the filter skipped the
+        # update anyway, that is also a C05 violation (the update does not return x + K(z-h), P - K H P) and is caught below
         # ---- accepted update values (C05)
         res.stats["accept"] += 1
         # P - K H P and x + K(z-h) cancel: rounding is relative to the PRIOR's magnitude (and to |K (z-h)|), not to the small result
@@ -520,6 +526,13 @@ class Harness:
                 res.add("C05", "prediction_reading_moves_state", "C05:py:prediction_reading_moves_state", i, "a reading equal to the prediction leaves the state unchanged", f"{st.data.T.tolist()} -> {so.data.T.tolist()}")
         self.cov_invariant(i, co.data, P_in, "update")
         return so, co
+
+
+def _covariance_refusal(e) -> bool:
+    """an exception that says 'this covariance is not acceptable' (as opposed to an unrelated crash)"""
+    import re
+
+    return isinstance(e, np.linalg.LinAlgError) or bool(re.search(r"positive|definite|singular|covariance|symmetric|negative", str(e), re.I))
 
 
 # --------------------------------------------------------------------------- execution: direct mode
